@@ -27,6 +27,17 @@ PROPS = {
         trusted=["Ping/Traceroute client code (interprets notices) is exercised by the mesh engine, not modelled line by line"],
         assumptions=["hop budget is a byte (0..255)"],
     ),
+    "C12": dict(
+        lean_props="Receptor.Props.C12",
+        engines=[dict(engine="fw", pkg=NETC, test="TestVerifFw", n_quick=600, n_thorough=6000),
+                 dict(engine="pkt", pkg=NETC, test="TestVerifPkt", n_quick=400, n_thorough=3000)],
+        corr_ops={"fw": ["parse"], "pkt": ["handle", "walk"]},
+        facts=["fw_errors_propagated", "fw_regex_minlen", "fw_regex_wrap", "fw_loop", "fw_before_dispatch"],
+        trusted=["Go regexp: full syntax trusted; the correspondence uses a regex subset (literals, classes, '.', "
+                 "concatenation, alternation, * + ?) rendered from ASTs, matched in Lean by a verified derivative matcher",
+                 "a rule field set to the empty string is 'not given' (as the code treats it)"],
+        assumptions=["rule data without two keys differing only in letter case (Go map order would decide)"],
+    ),
     "C20": dict(
         lean_props="Receptor.Props.C20",
         engines=[dict(engine="der", pkg="pkg/utils", test="TestVerifDER", n_quick=400, n_thorough=4000)],
